@@ -243,6 +243,53 @@ func scenarios() []scenario {
 		}})
 	}
 
+	// --- shared filter that was used for a Batch before (its relation slice has spare capacity),
+	//     then concurrent queries with different per-query targets
+	out = append(out, scenario{name: "shared-relation-targets-after-batch/2thr", threads: 2, build: func() ([]func(*tres), []tres, func() string) {
+		w := ecs.NewWorld(4)
+		flt := ecs.NewFilter2[pos, childOf](w)
+		fx := populate(w)
+		extra := w.NewEntity()
+		mv := ecs.NewMap1[vel](w)
+		mv.AddBatch(flt.Batch(ecs.RelIdx(1, extra)), &vel{V: 3}) // matches nothing; leaves capacity in the filter's slice
+		var bodies []func(*tres)
+		var exp []tres
+		for i := 0; i < 2; i++ {
+			p := i
+			bodies = append(bodies, func(r *tres) {
+				q := flt.Query(ecs.RelIdx(1, fx.parents[p]))
+				for q.Next() {
+					ps, _ := q.Get()
+					r.visited = append(r.visited, q.Entity())
+					r.sum += ps.X
+					if q.GetRelation(1) != fx.parents[p] {
+						r.err = "query yields an entity of another parent"
+					}
+				}
+			})
+			exp = append(exp, tres{visited: fx.children[p], sum: sumOf(w, fx.children[p])})
+		}
+		return bodies, exp, finalCheck(w, 0)
+	}})
+
+	// --- one relation argument slice (type based Rel[C]) shared by all goroutines
+	out = append(out, scenario{name: "shared-relation-argument/2thr", threads: 2, build: func() ([]func(*tres), []tres, func() string) {
+		w := ecs.NewWorld(4)
+		flt := ecs.NewFilter2[pos, childOf](w)
+		fx := populate(w)
+		rels := []ecs.Relation{ecs.Rel[childOf](fx.parents[0])}
+		body := func(r *tres) {
+			q := flt.Query(rels...)
+			for q.Next() {
+				ps, _ := q.Get()
+				r.visited = append(r.visited, q.Entity())
+				r.sum += ps.X
+			}
+		}
+		exp := []tres{{visited: fx.children[0], sum: sumOf(w, fx.children[0])}, {visited: fx.children[0], sum: sumOf(w, fx.children[0])}}
+		return []func(*tres){body, body}, exp, finalCheck(w, 0)
+	}})
+
 	// --- unsafe filter shared
 	out = append(out, scenario{name: "shared-unsafe/2thr", threads: 2, build: func() ([]func(*tres), []tres, func() string) {
 		w := ecs.NewWorld(4)
